@@ -309,6 +309,10 @@ func c38Round(c *core.Ctx, work string, idx int) {
 	verdict := ""
 	hung := false
 	finish := func(what string) {
+		// quiesce the clients that are not stuck (their short calls - e.g. commits refused with
+		// ErrBlockedWrites - would otherwise count as progress), then observe the rest twice
+		paused.Store(true)
+		time.Sleep(2 * time.Second)
 		v, dead := analyse(tr, what)
 		verdict, hung = v, dead
 	}
@@ -317,17 +321,52 @@ func c38Round(c *core.Ctx, work string, idx int) {
 	close(stopAll)
 	paused.Store(true) // Flatten and the drops need the write pressure to end in order to finish
 	var cerr error
+	var subWG0 *sync.WaitGroup
 	ok := waitTimeout(&wg, limit)
 	paused.Store(false)
 	time.Sleep(20 * time.Millisecond) // writes are in flight again when Close is called
 	if !ok {
 		finish("readers/maintenance did not finish")
 	} else {
+		// subscribers that are still registered when Close starts; their contexts are cancelled (or
+		// their callbacks fail) while Close is shutting the publisher down
+		var subWG sync.WaitGroup
+		subWG0 = &subWG
+		var cancels []context.CancelFunc
+		nSubs := 2 + r.Intn(5)
+		for i := 0; i < nSubs; i++ {
+			ctx, cancel := context.WithCancel(context.Background())
+			cancels = append(cancels, cancel)
+			failing := r.Intn(4) == 0
+			subWG.Add(1)
+			go func() {
+				defer subWG.Done()
+				sid := tr.begin("Subscribe")
+				defer tr.end(sid)
+				defer func() { _ = recover() }()
+				_ = db.Subscribe(ctx, func(*badger.KVList) error {
+					if failing && closing.Load() {
+						return errors.New("callback gives up")
+					}
+					time.Sleep(50 * time.Microsecond)
+					return nil
+				}, []pb.Match{{Prefix: []byte{}}})
+			}()
+		}
+		for w := 0; w < 200 && db.VerifSubscriberCount() < nSubs; w++ {
+			time.Sleep(time.Millisecond)
+		}
 		// Close with writes still in flight
 		closing.Store(true)
 		closeDone := make(chan error, 1)
 		id := tr.begin("Close")
 		go func() { closeDone <- db.Close() }()
+		go func() {
+			for _, cancel := range cancels {
+				time.Sleep(time.Duration(r.Intn(400)) * time.Microsecond)
+				cancel()
+			}
+		}()
 		select {
 		case cerr = <-closeDone:
 			closed.Store(true)
@@ -339,6 +378,9 @@ func c38Round(c *core.Ctx, work string, idx int) {
 	close(stopWriters)
 	if verdict == "" && !waitTimeout(&wwg, limit) {
 		finish("a Commit issued around Close did not return")
+	}
+	if verdict == "" && subWG0 != nil && !waitTimeout(subWG0, limit) {
+		finish("a Subscribe call cancelled around Close did not return")
 	}
 	c.Eval(1)
 	info := map[string]any{"options": ov.Name, "compactors": ov.Opt.NumCompactors, "l0_stall": ov.Opt.NumLevelZeroTablesStall, "calls_completed": tr.done.Load()}
@@ -378,7 +420,7 @@ func c38Round(c *core.Ctx, work string, idx int) {
 func C38(c *core.Ctx) {
 	c.Rule("bounded-progress restatement: with 2-4 compactors, 16 KiB memtables, NumLevelZeroTables=1 and stall at 2-3 tables (L0 stalls and full flush queues are the normal " +
 		"state), 6 committers (Commit and CommitWith), 3 readers/iterators, a WriteBatch flusher and a maintenance goroutine (RunValueLogGC, DropPrefix, DropAll, Flatten, " +
-		"Subscribe+cancel) run for 1.5-4 s with delays at flush/compaction/drop schedule points, then Close is called while the committers keep committing; every call is tracked; a " +
+		"Subscribe+cancel) run for 1.5-4 s with delays at flush/compaction/drop schedule points, then 2-6 subscribers are registered and Close is called while the committers keep committing and the subscribers' contexts are cancelled (some callbacks return errors) during the shutdown; every call is tracked; a " +
 		"call older than 45 s starts an analysis (two full goroutine dumps 8 s apart + completed-call counter): unchanged blocked badger stacks and no completed call = violation " +
 		"with the dump as witness, anything else = inconclusive; a panic inside badger raised by a public call is a violation; distinct = (options, compactors, stall) configurations")
 	work := c.WorkDir()
